@@ -73,9 +73,12 @@ func (c *Cursor) Last() (key []byte, value []byte) {
 	c.last()
 
 	// If this is an empty page (calling Delete may result in empty pages)
-	// we call prev to find the last page that is not empty
-	for len(c.stack) > 1 && c.stack[len(c.stack)-1].count() == 0 {
-		c.prev()
+	// we call prev to find the last page that is not empty. prev returns
+	// nil if there is none, i.e. if the bucket has no keys at all.
+	if len(c.stack) > 1 && c.stack[len(c.stack)-1].count() == 0 {
+		if k, _, _ := c.prev(); k == nil {
+			return nil, nil
+		}
 	}
 
 	if len(c.stack) == 0 {
@@ -213,6 +216,13 @@ func (c *Cursor) last() {
 // next moves to the next leaf element and returns the key and value.
 // If the cursor is at the last leaf element then it stays there and returns nil.
 func (c *Cursor) next() (key []byte, value []byte, flags uint32) {
+	// Remember whether we start from an element, and whether we pass empty
+	// pages (calling Delete may result in empty pages) on our way.
+	var onElement, skippedEmptyPage bool
+	if len(c.stack) > 0 {
+		ref := &c.stack[len(c.stack)-1]
+		onElement = ref.index < ref.count()
+	}
 	for {
 		// Attempt to move over one element until we're successful.
 		// Move up the stack as we hit the end of each page in our stack.
@@ -228,6 +238,11 @@ func (c *Cursor) next() (key []byte, value []byte, flags uint32) {
 		// If we've hit the root page then stop and return. This will leave the
 		// cursor on the last element of the last page.
 		if i == -1 {
+			// If we walked over trailing empty pages then go back, so that
+			// the cursor is left on the last element as documented.
+			if onElement && skippedEmptyPage {
+				c.Last()
+			}
 			return nil, nil, 0
 		}
 
@@ -239,6 +254,7 @@ func (c *Cursor) next() (key []byte, value []byte, flags uint32) {
 		// If this is an empty page then restart and move back up the stack.
 		// https://github.com/boltdb/bolt/issues/450
 		if c.stack[len(c.stack)-1].count() == 0 {
+			skippedEmptyPage = true
 			continue
 		}
 
@@ -249,6 +265,7 @@ func (c *Cursor) next() (key []byte, value []byte, flags uint32) {
 // prev moves the cursor to the previous item in the bucket and returns its key and value.
 // If the cursor is at the beginning of the bucket then a nil key and value are returned.
 func (c *Cursor) prev() (key []byte, value []byte, flags uint32) {
+retry:
 	// Attempt to move back one element until we're successful.
 	// Move up the stack as we hit the beginning of each page in our stack.
 	for i := len(c.stack) - 1; i >= 0; i-- {
@@ -276,6 +293,12 @@ func (c *Cursor) prev() (key []byte, value []byte, flags uint32) {
 
 	// Move down the stack to find the last element of the last leaf under this branch.
 	c.last()
+
+	// If this is an empty page (calling Delete may result in empty pages)
+	// then restart and move further back, like next does.
+	if c.stack[len(c.stack)-1].count() == 0 {
+		goto retry
+	}
 	return c.keyValue()
 }
 
